@@ -171,6 +171,14 @@ pub(crate) mod alloc {
 
         /// Compute a FFT, modifying the vector in place.
         fn fft_in_place(&self, coeffs: &mut Vec<BlsScalar>) {
+            // A polynomial with more coefficients than the domain has
+            // elements is reduced modulo `X^n - 1` (which vanishes on the
+            // domain) instead of being truncated.
+            let size = self.size();
+            for i in size..coeffs.len() {
+                let coeff = coeffs[i];
+                coeffs[i % size] += coeff;
+            }
             coeffs.resize(self.size(), BlsScalar::zero());
             best_fft(coeffs, self.group_gen, self.log_size_of_group)
         }
